@@ -67,7 +67,14 @@ void iobuffer::export_buffer(FILE *fout, bool ispadding)
   WV_POINT(WVP_IO_EXPORT, this);
   if (isfinal)
   {
-    u8_t padding = ispadding ? 0 : b[now - 1][15];
+    u8_t padding = 0;
+    if ((!ispadding) && now > 0)
+    {
+      padding = b[now - 1][15];
+      // not a PKCS#7 length (1..16): strip nothing instead of letting the size below wrap around
+      if (padding < 1 || padding > 16)
+        padding = 0;
+    }
     fwrite(b, 1, (now << 4) - padding, fout);
   }
   else
